@@ -30,7 +30,13 @@ import fam_docemit
 
 ID = "C05"
 COQ_PROP = "C05"
-FAMILIES = [(fam_docparse, 1500, 20000), (fam_docemit, 1000, 12000)]
+import fam_docparseng  # noqa: E402  (every kind on a chain is converted by its own emitter and parser)
+import fam_emitast  # noqa: E402
+import fam_parseast  # noqa: E402
+import fam_parsesig  # noqa: E402
+
+FAMILIES = [(fam_docparse, 1200, 20000), (fam_docemit, 1000, 12000), (fam_docparseng, 1000, 12000), (fam_emitast, 1200, 15000),
+            (fam_parseast, 1200, 15000), (fam_parsesig, 1000, 12000)]
 TECHNIQUE = ("Coq proof of the composition theorem (any chain length; `preserved` reflexive, transitive, position-wise: no swap "
              "between parameters) from per-kind round-trip laws; the ReST law is discharged from the C01 ReST theorem on its guard; "
              "the other per-kind laws and the closure of the region are validated on the real emitters and parsers: every ordered "
